@@ -15,7 +15,51 @@ var ipAllocatorFuncs = []string{
 	"allocator.IPAllocator.Stats", "allocator.addIPOffset", "allocator.ipOffset",
 }
 
-// countObligation: obligations about counts / exhaustion / statistics (claimed by C05, not C01).
+// The other pool implementations C01 / C05 are anchored in.
+var (
+	// pkg/pppoe/server.go: the pool PPPoE client addresses are assigned from, and the session-end paths
+	pppoePoolFuncs = []string{
+		"pppoe.IPPool.Allocate", "pppoe.IPPool.Release",
+		"pppoe.Server.handlePADT", "pppoe.Server.handleLCPTermRequest", "pppoe.Server.expireSessions",
+	}
+	// pkg/allocator/epoch_bitmap.go: lease mode
+	epochFuncs = []string{
+		"allocator.NewEpochBitmapAllocator", "allocator.EpochBitmapAllocator.Allocate", "allocator.EpochBitmapAllocator.Renew",
+		"allocator.EpochBitmapAllocator.Release", "allocator.EpochBitmapAllocator.SetAllocation", "allocator.EpochBitmapAllocator.Lookup",
+		"allocator.EpochBitmapAllocator.LookupByIP", "allocator.EpochBitmapAllocator.AdvanceEpoch", "allocator.EpochBitmapAllocator.GetCurrentEpoch",
+		"allocator.EpochBitmapAllocator.Stats", "allocator.EpochBitmapAllocator.UnmarshalJSON", "allocator.EpochBitmapAllocator.MarshalJSON",
+		"allocator.EpochBitmapAllocator.currentGeneration", "allocator.EpochBitmapAllocator.freeThreshold", "allocator.EpochBitmapAllocator.isGenerationFree",
+		"allocator.EpochBitmapAllocator.getGeneration", "allocator.EpochBitmapAllocator.indexToIP", "allocator.EpochBitmapAllocator.ipToIndex",
+	}
+	// pkg/allocator/store.go: IPAllocator backed by an AllocationStore
+	poolAllocatorFuncs = []string{
+		"allocator.NewPoolAllocatorWithType", "allocator.PoolAllocator.AllocateWithOptions", "allocator.PoolAllocator.Allocate",
+		"allocator.PoolAllocator.Release", "allocator.PoolAllocator.Lookup", "allocator.PoolAllocator.Stats",
+	}
+	// pkg/pool/peer.go: the addresses a peer hands out itself
+	peerLocalFuncs = []string{
+		"pool.newLocalPool", "pool.PeerPool.makeResponse", "pool.PeerPool.allocateLocal", "pool.PeerPool.releaseLocal",
+		"pool.PeerPool.Get", "pool.PeerPool.Stats",
+	}
+	// pkg/nexus/client.go: hash-based central allocation
+	nexusAllocFuncs = []string{
+		"nexus.parseIPv4", "nexus.parseIPNet", "nexus.Client.GetSubscriber", "nexus.Client.SaveSubscriber",
+		"nexus.Client.addressesInUse", "nexus.Client.allocateFromPool", "nexus.Client.AllocateIPForSubscriber",
+	}
+)
+
+func poolFuncs() []string {
+	var fs []string
+	for _, l := range [][]string{ipAllocatorFuncs, pppoePoolFuncs, epochFuncs, poolAllocatorFuncs, peerLocalFuncs, nexusAllocFuncs} {
+		fs = append(fs, l...)
+	}
+	return fs
+}
+
+var poolPkgs = []string{"./pkg/allocator", "./pkg/pppoe", "./pkg/pool", "./pkg/nexus"}
+
+// countObligation: obligations about counts / leaks / exhaustion / release / expiry / statistics
+// (claimed by C05, not C01). Every obligation of the pool functions belongs to exactly one of the two.
 func countObligation(o *govc.Oblig) bool {
 	id := o.ID
 	switch {
@@ -30,38 +74,90 @@ func countObligation(o *govc.Oblig) bool {
 	case strings.Contains(id, "isErr_err_ErrPoolExhausted"):
 		return true
 	}
+	return poolExtCount(o)
+}
+
+// poolExtCount classifies the obligations of the pools added after the bitmap allocator.
+func poolExtCount(o *govc.Oblig) bool {
+	// whole functions whose purpose is giving addresses back / expiry / renewal / session end
+	for _, suf := range []string{
+		"pppoe.IPPool.Release", "pppoe.Server.handleLCPTermRequest", "pppoe.Server.expireSessions",
+		"allocator.EpochBitmapAllocator.Release", "allocator.EpochBitmapAllocator.Renew", "allocator.EpochBitmapAllocator.AdvanceEpoch",
+		"allocator.PoolAllocator.Release", "pool.PeerPool.releaseLocal",
+	} {
+		if o.Func == suf {
+			return true
+		}
+	}
+	id := o.ID
+	for _, s := range []string{
+		"len_p.available__card_p.allocated",             // PPPoE: free + held conserved
+		"_result__nil_______locked_sessionIDinp.alloca", // PPPoE: nil iff nothing free
+		"result__nil___p.available__locked_p.available", // PPPoE: failure changes nothing
+		"pppRel", "old_s.clientIPPool___nil",            // PPPoE: session end releases exactly once
+		"len_p.localPool.available__card_",              // peer: free + held conserved
+		"_err__nil_______locked_subscriberIDinp.localP", // peer: error iff nothing free
+		"err__nil___result__nil__p.localPool.available", // peer: failure changes nothing
+		".live_unlock",                                  // epoch: no expired lease is kept
+		"recSaves", "recRemoves",                        // PoolAllocator: store writes
+		"PoolAllocator.AllocateWithOptions.ensures[err__nil___old_opts.SubscriberID", // PoolAllocator: failed persistence is undone
+		"PoolAllocator.Allocate.ensures[err__nil___old_subscriberID",                 // PoolAllocator.Allocate: the same
+		"err__nil____old_subscriberIDinc.subscriberCache",                            // nexus: failed save takes the address back
+	} {
+		if strings.Contains(id, s) {
+			return true
+		}
+	}
 	return false
+}
+
+var poolTrusted = []string{
+	"allocator.EpochBitmapAllocator.setGeneration: bit packing x &^ (3<<s) | g<<s (outside the engine's model of bitwise operators); contract confirmed by exhaustive enumeration (replays/inspection_EpochBitmapAllocator_setGeneration_exhaustive.go)",
+	"allocator.AllocationStore.SaveAllocation / RemoveAllocation (interface): fail nondeterministically; a call that returns an error had no effect on the store",
+	"nexus.TypedStore.Get / Put (generic store access): Get returns a fresh non-nil object or an error; the Go heap is only read",
+	"pool.hashString / pool.hashCombine (see C17)",
 }
 
 func init() {
 	register(&PropDef{
-		ID:    "C01",
-		Title: "No address or prefix is ever held by two subscribers at once",
-		Pkgs:  []string{"./pkg/allocator"},
-		Funcs: ipAllocatorFuncs,
-		Select: func(o *govc.Oblig) bool { return !countObligation(o) },
+		ID:      "C01",
+		Title:   "No address or prefix is ever held by two subscribers at once",
+		Pkgs:    poolPkgs,
+		Funcs:   poolFuncs(),
+		Select:  func(o *govc.Oblig) bool { return !countObligation(o) },
+		Trusted: poolTrusted,
 		Undecided: []string{
-			"pool implementations not under contract in this run: epoch/lease allocator, DHCPv4 pool, DHCPv6 address/prefix pools, PPPoE IPPool, peer-local pool, hash-based central allocation (nexus client) — see DESIGN.md C01",
-			"prefix arithmetic (index <-> IP bytes in addIPOffset/ipOffset/getPrefixByIndex) is under frame contracts only: the claim is at the level of prefix indices (0 <= idx < total, injective ownership), the byte-level IP arithmetic is not decided",
-			"uniqueness across several BNG processes",
+			"DHCPv4 pool and DHCPv6 address/prefix pools are decided under C02 (same invariant shape: free list pairwise distinct, disjoint from the bindings, bindings injective)",
+			"prefix / address arithmetic (index <-> IP bytes: addIPOffset, ipOffset, getPrefixByIndex, EpochBitmapAllocator.indexToIP / ipToIndex, the offset addition of nexus allocateFromPool) is under frame / range contracts only: the claim is at the level of indices (inside the pool, injective ownership), the byte-level arithmetic is not decided",
+			"constructors whose result is built by address iteration (pppoe.NewIPPool, pool.generateAvailableIPs): the initial establishment of 'free list pairwise distinct, inside the network, without network/gateway/broadcast address' is not a discharged obligation (net.IPNet.Contains and the byte increment are not modelled); confirmed by exhaustive enumeration for every /24../30 network and every gateway position in replays/inspection_pppoe_NewIPPool_small_pools.go",
+			"PoolAllocator.ready after NewPoolAllocatorWithType (engine limit: values read after a Lock may alias maps allocated by the same call)",
+			"lease-mode branches of DistributedAllocator (loadAllocations, handleRemoteChange, Allocate): the C12 contracts require session mode; that the reload installs the recorded address is decided for EpochBitmapAllocator.SetAllocation up to ipToIndex, the call itself is confirmed by replay",
+			"uniqueness across several BNG processes: every peer of a PeerPool builds its local pool from the whole network (two peers hand the same address to different subscribers, replays/observation_pool_PeerPool_same_range_on_every_peer.go); nexus allocation is serialised per process only",
+			"pppoe.Server.expireSessions: number of releases (one per session that disappeared) is not decided, only the frame",
 		},
 		Assumptions: []string{
-			"monitor model for mu: all IPAllocator fields are accessed with mu held (every exported method locks); data-race freedom of unexported helpers is by their 'requires a.inv' contracts",
-			"Go maps behave as (domain, value, cardinality) triples; math/big per AssumedLib",
+			"monitor model for every mutex (IPAllocator.mu, EpochBitmapAllocator.mu, IPPool.mu, LocalPool.mu, PoolAllocator.mu, nexus Client.mu/allocMu): all fields of the owned state are accessed with the mutex held",
+			"PoolAllocator / nexus Client: calls made while holding the serialising mutex (PoolAllocator.mu, Client.allocMu) see the callee's state unchanged between the call and the callee's own lock (mode seq); cache updates by the store watcher during one allocation are not considered",
+			"PPPoE session ids (Session.SessionID, 16 random bytes) are unique among live sessions",
+			"Go maps behave as (domain, value, cardinality) triples; math/big per AssumedLib; net.IP.Equal / String through the ip_key model",
 		},
-		Explanation: "Representation invariant of allocator.IPAllocator (allocated and indexToSubscriber are mutually inverse, the bitmap is exactly the domain of indexToSubscriber, every index is below the pool size) is declared as the lock invariant of mu: it is assumed after every Lock/RLock with all protected fields havocked, and asserted at every Unlock, for every method. Injectivity of the subscriber->index map gives 'no prefix held by two subscribers'; Allocate's whole-view postcondition gives idempotence (same index, nothing else changed) and that a newly assigned index was free before. Each obligation is one SMT query.",
+		Explanation: "Each pool carries its representation invariant as the lock invariant of its mutex: assumed after every Lock with all protected fields havocked, asserted at every Unlock of every method. IPAllocator: allocated and indexToSubscriber mutually inverse, bitmap = domain, indices below the pool size. EpochBitmapAllocator: subscribers and ipToSubscriber mutually inverse, indices in [1, totalIPs-2], no kept lease older than the grace period. PPPoE IPPool and peer LocalPool: free list pairwise distinct, disjoint from the bindings, bindings injective (peer: ipToSub exactly the reverse table). Injectivity gives 'no address held by two subscribers'. The Allocate contracts are whole-view: a holder gets the same value and nothing changes (idempotence), a new holder gets a value that was free, every other binding is untouched. Reload: UnmarshalJSON of both allocators re-establishes the invariant whatever the document says; SetAllocation installs exactly one binding. nexus: allocateFromPool returns an address outside the set of addresses held by the other cached subscribers. Each obligation is one SMT query.",
 	})
 	register(&PropDef{
-		ID:    "C05",
-		Title: "Address pools neither leak nor miscount",
-		Pkgs:  []string{"./pkg/allocator"},
-		Funcs: ipAllocatorFuncs,
-		Select: countObligation,
+		ID:      "C05",
+		Title:   "Address pools neither leak nor miscount",
+		Pkgs:    poolPkgs,
+		Funcs:   poolFuncs(),
+		Select:  countObligation,
+		Trusted: poolTrusted,
 		Undecided: []string{
-			"pool implementations not under contract in this run: epoch/lease allocator (grace-period clause), DHCPv4/DHCPv6/PPPoE/peer pools, store-backed rollback paths of DistributedAllocator",
+			"DHCPv4 / DHCPv6 pools: release and quarantine are decided under C02 / C16",
 			"utilisation percentage (floating point)",
+			"store-backed rollback of DistributedAllocator in lease mode (the C12 contracts require session mode)",
+			"pppoe.Server.expireSessions: that every expired session's address is released is confirmed by replay only (frame contract)",
+			"PPPoE sessions that end on other paths (failed re-authentication sets StateClosed without removing the session; SessionTeardown is not wired into the server)",
 		},
 		Assumptions: []string{"same as C01"},
-		Explanation: "Count invariant allocatedCount == |allocated| == |indexToSubscriber| (cardinalities are ghost counters maintained by every map insert/delete, no cardinality axioms) is part of the lock invariant and asserted at every Unlock. findFreeIndex's postcondition states that ErrPoolExhausted is returned only if every index below the pool size has its bit set (loop invariants over both scans), which with the bijection invariant means every usable prefix has a live holder; Stats returns exactly the ghost cardinality and the pool size; Release clears exactly the released index.",
+		Explanation: "Counts are lock invariants: IPAllocator allocatedCount == |allocated| == |indexToSubscriber|; EpochBitmapAllocator |subscribers| == |ipToSubscriber| and Stats returns that cardinality; PPPoE IPPool and peer LocalPool conserve len(free list) + |bindings| across Allocate / Release (cardinalities are ghost counters maintained by every map insert/delete). Exhaustion: findFreeIndex / EpochBitmapAllocator.Allocate return ErrPoolExhausted only if every usable index is held (loop invariants over the scan, including the wrap-around of the hint), the free-list pools report failure iff the free list is empty and the caller holds nothing; a failed call changes nothing. Release clears exactly the released binding and makes exactly that value available again. Expiry: AdvanceEpoch keeps a lease iff its age is within the grace period (never reclaimed while renewed in time) and removes every other lease with its reverse entry. Failed persistence: PoolAllocator undoes only what the failing call added and removes the store record before the local release; nexus takes the address off the record when the save fails. PPPoE: PADT and LCP Terminate-Request release the session's address exactly once.",
 	})
 }
